@@ -407,13 +407,18 @@ impl World {
         v
     }
 
+    /// Pings awaiting their PINGRESP, in the order their PINGREQ went onto the wire
+    /// (a broker answers PINGREQs in order, whether or not the caller has cancelled meanwhile).
     pub fn pings_outstanding(&self) -> Vec<usize> {
-        self.m
+        let mut v: Vec<(usize, usize)> = self
+            .m
             .iter()
             .enumerate()
             .filter(|(_, m)| m.kind == Kind::Ping && m.req_wire.is_some() && !m.ack1 && !m.after_ctx_drop)
-            .map(|(i, _)| i)
-            .collect()
+            .map(|(i, m)| (m.req_wire.unwrap(), i))
+            .collect();
+        v.sort();
+        v.into_iter().map(|x| x.1).collect()
     }
 
     /// Delivers the acknowledgement for op `i` (stage 1 or 2) with the `ridx`-th legal reason code.
